@@ -427,8 +427,28 @@ def group_level(rep, tier, timeout):
         Mv = gv("aero_point_0.total_perf.M") if False else None
         if not user:
             obs.append(oblig.Ob("S_ref_total", lhs=Stot, rhs=S_i["wing"] + S_i["tail"], meta={"family": "summed reference area"}))
+        def rp_ap(ob, env, user=user):
+            # the real AeroPoint on floats (surfaces apart from each other), identities between its own outputs
+            import copy
+
+            s2 = [copy.deepcopy(x) for x in ss]
+            s2[1]["mesh"] = s2[1]["mesh"] + np.array([5.0, 0.0, 0.6])
+            pr = groups.aeropoint_problem(s2, user_specified_Sref=user, vals={"alpha": 4.0, "v": 60.0, "rho": 0.9, "S_ref_total": 7.5})
+            pr.run_model()
+            gvv = lambda n: float(np.ravel(pr.get_val(n))[0])
+            Si = [gvv("aero_point_0.%s.S_ref" % n) for n in ("wing", "tail")]
+            St = 7.5 if user else gvv("aero_point_0.total_perf.S_ref_total")
+            bad = []
+            for q in ("CL", "CD"):
+                want = sum(gvv("aero_point_0.%s_perf.%s" % (n, q)) * a_ for n, a_ in zip(("wing", "tail"), Si)) / St
+                if model.differs(gvv("aero_point_0.%s" % q), want, 1e-9):
+                    bad.append("%s = %.9g, area-weighted sum / reference area = %.9g" % (q, gvv("aero_point_0.%s" % q), want))
+            if not user and model.differs(St, sum(Si), 1e-9):
+                bad.append("S_ref_total = %.9g, sum of the surface areas %.9g" % (St, sum(Si)))
+            return bool(bad), "; ".join(bad) or "real AeroPoint satisfies the identities"
+
         run_obligations(rep, "real AeroPoint group: total_perf wiring (user_specified_Sref=%s)" % user, obs, timeout, levels=(1, 2),
-                        family=lambda ob: "AeroPoint: " + ob.meta["family"])
+                        family=lambda ob: "AeroPoint: " + ob.meta["family"], replay=rp_ap)
 
 
 def run(tier, seed, only=None):
